@@ -1482,6 +1482,213 @@ func connsFinal(x *harness.X, res *rt.Result) {
 	}
 }
 
+// ---- both ends made by the builders ----------------------------------------------------------
+//
+// A Server assembled by ServerBuilder (node, enabled schemes with real authenticators,
+// Register/Established/Finished) and a Client assembled by ClientBuilder (node, one of the
+// authentication helpers) meet over the in-process transport. Every combination of client
+// credentials, enabled schemes, Register outcome and client name is one execution.
+
+type bpRun struct {
+	auth, enabled, name string
+	regOutcome          int
+	inner               []string
+	regCand, regRet     string
+	estCb, finCb        int
+	estRemote           string
+	estErr              error
+	handlerRemote       string
+	handlerLocal        string
+	handled             int
+	sendErr             error
+	snap                bool
+}
+
+const bpUUID = "0c1d9c4e-7b0f-4a55-9c2e-4f8a1f5e6d70"
+
+func builderPairBody(x *harness.X) {
+	lib.Reset()
+	r := &bpRun{}
+	x.Vars["bp"] = r
+	r.auth = []string{"guest", "plain-right", "plain-wrong", "key-right", "key-wrong", "external-right", "external-wrong", "transport"}[rt.Choose(8)]
+	r.enabled = []string{"all", "guest+plain", "key+external+transport"}[rt.Choose(3)]
+	r.regOutcome = rt.Choose(3)
+	r.name = []string{"alice", bpUUID}[rt.Choose(2)]
+	addr := lime.InProcessAddr("hsrv-builders")
+	sb := lime.NewServerBuilder().Name("postmaster").Domain("srv.test").Instance("s1").ListenInProcess(addr).ChannelBufferSize(1)
+	on := func(s string) bool { return r.enabled == "all" || strings.Contains(r.enabled, s) }
+	accept := func(ok bool) (*lime.AuthenticationResult, error) {
+		if ok {
+			return lime.MemberAuthenticationResult(), nil
+		}
+		return lime.UnknownAuthenticationResult(), nil
+	}
+	if on("guest") {
+		sb = sb.EnableGuestAuthentication()
+	}
+	if on("plain") {
+		sb = sb.EnablePlainAuthentication(func(ctx context.Context, id lime.Identity, pw string) (*lime.AuthenticationResult, error) {
+			r.inner = append(r.inner, "plain:"+id.String()+":"+pw)
+			return accept(pw == "secret")
+		})
+	}
+	if on("key") {
+		sb = sb.EnableKeyAuthentication(func(ctx context.Context, id lime.Identity, key string) (*lime.AuthenticationResult, error) {
+			r.inner = append(r.inner, "key:"+id.String()+":"+key)
+			return accept(key == "k3y")
+		})
+	}
+	if on("external") {
+		sb = sb.EnableExternalAuthentication(func(ctx context.Context, id lime.Identity, token, issuer string) (*lime.AuthenticationResult, error) {
+			r.inner = append(r.inner, "external:"+id.String()+":"+token+"|"+issuer)
+			return accept(token == "tok" && issuer == "iss")
+		})
+	}
+	if on("transport") {
+		sb = sb.EnableTransportAuthentication()
+	}
+	sb = sb.Register(func(ctx context.Context, cand lime.Node, c *lime.ServerChannel) (lime.Node, error) {
+		r.regCand = cand.String()
+		switch r.regOutcome {
+		case 1:
+			n := lime.Node{Identity: lime.Identity{Name: "assigned", Domain: "srv.test"}, Instance: "r1"}
+			r.regRet = n.String()
+			return n, nil
+		case 2:
+			return lime.Node{}, errors.New("register refuses")
+		}
+		r.regRet = cand.String()
+		return cand, nil
+	}).Established(func(id string, c *lime.ServerChannel) {
+		r.estCb++
+		r.estRemote = c.RemoteNode().String()
+		x.Obs("established-callback remote=%s", r.estRemote)
+	}).Finished(func(id string) {
+		r.finCb++
+		x.Obs("finished-callback")
+	}).MessagesHandlerFunc(func(ctx context.Context, m *lime.Message, snd lime.Sender) error {
+		rn, _ := lime.ContextSessionRemoteNode(ctx)
+		ln, _ := lime.ContextSessionLocalNode(ctx)
+		r.handlerRemote, r.handlerLocal = rn.String(), ln.String()
+		r.handled++
+		return nil
+	})
+	srv := sb.Build()
+	go func() { _ = srv.ListenAndServe() }()
+	rt.Quiesce()
+	cb := lime.NewClientBuilder().Name(r.name).Domain("cli.test").Instance("home").UseInProcess(addr, 1).ChannelBufferSize(1).
+		Compression(lime.SessionCompressionNone).Encryption(lime.SessionEncryptionNone)
+	switch r.auth {
+	case "guest":
+		cb = cb.GuestAuthentication()
+	case "plain-right":
+		cb = cb.PlainAuthentication("secret")
+	case "plain-wrong":
+		cb = cb.PlainAuthentication("guess")
+	case "key-right":
+		cb = cb.KeyAuthentication("k3y")
+	case "key-wrong":
+		cb = cb.KeyAuthentication("nope")
+	case "external-right":
+		cb = cb.ExternalAuthentication("tok", "iss")
+	case "external-wrong":
+		cb = cb.ExternalAuthentication("tok", "other")
+	case "transport":
+		cb = cb.TransportAuthentication()
+	}
+	client := cb.Build()
+	ctx, cancel := context.WithTimeout(context.Background(), 30*time.Second)
+	defer cancel()
+	r.estErr = client.Establish(ctx)
+	x.Obs("client Establish err=%v", r.estErr != nil)
+	if r.estErr == nil {
+		sctx, c2 := context.WithTimeout(context.Background(), 3*time.Second)
+		r.sendErr = client.SendMessage(sctx, lib.Msg("m1", "hi"))
+		c2()
+		rt.Quiesce()
+	}
+	_ = client.Close()
+	rt.Quiesce()
+	_ = srv.Close()
+	rt.Quiesce()
+	r.snap = true
+	rt.Stop()
+}
+
+func builderPairFinal(x *harness.X, res *rt.Result) {
+	r, _ := x.Vars["bp"].(*bpRun)
+	if r == nil {
+		return
+	}
+	hist := fmt.Sprintf("[client %s as %q; server enables %s; Register outcome %d; %s]", r.auth, r.name, r.enabled, r.regOutcome, strings.Join(x.Log(), " | "))
+	if res.Crash != "" {
+		x.Failf("C03:builders:panic:"+res.CrashSite, "%s %s", strings.SplitN(res.Crash, "\n", 2)[0], hist)
+		return
+	}
+	if !r.snap {
+		return
+	}
+	scheme := strings.SplitN(r.auth, "-", 2)[0]
+	offered := r.enabled == "all" || strings.Contains(r.enabled, scheme)
+	identity := r.name + "@cli.test"
+	var wantInner []string
+	credOK := false
+	switch r.auth {
+	case "guest":
+		credOK = r.name == bpUUID
+	case "plain-right", "plain-wrong":
+		pw := map[string]string{"plain-right": "secret", "plain-wrong": "guess"}[r.auth]
+		wantInner = []string{"plain:" + identity + ":" + pw}
+		credOK = r.auth == "plain-right"
+	case "key-right", "key-wrong":
+		k := map[string]string{"key-right": "k3y", "key-wrong": "nope"}[r.auth]
+		wantInner = []string{"key:" + identity + ":" + k}
+		credOK = r.auth == "key-right"
+	case "external-right", "external-wrong":
+		is := map[string]string{"external-right": "iss", "external-wrong": "other"}[r.auth]
+		wantInner = []string{"external:" + identity + ":tok|" + is}
+		credOK = r.auth == "external-right"
+	}
+	if !offered {
+		wantInner = nil
+	}
+	want := offered && credOK && r.regOutcome != 2
+	if got := r.estErr == nil; got != want {
+		x.Failf("C03:builders:established-mismatch", "client Establish succeeded=%v, but scheme offered=%v, credentials acceptable=%v, Register outcome=%d %s", got, offered, credOK, r.regOutcome, hist)
+	}
+	// (the Client retries a failed establishment until its context ends: the same
+	// consultation may repeat)
+	var uniq []string
+	for _, c := range r.inner {
+		if len(uniq) == 0 || uniq[len(uniq)-1] != c {
+			uniq = append(uniq, c)
+		}
+	}
+	if strings.Join(uniq, ",") != strings.Join(wantInner, ",") {
+		x.Failf("C03:builders:authenticator-consulted", "registered authenticators were consulted about %q, expected %q %s", uniq, wantInner, hist)
+	}
+	wantCb := 0
+	if want {
+		wantCb = 1
+	}
+	if r.estCb != wantCb || r.finCb != wantCb {
+		x.Failf(fmt.Sprintf("C03:builders:callbacks:est%d-fin%d", r.estCb, r.finCb), "Established fired %d times and Finished %d times, expected %d each %s", r.estCb, r.finCb, wantCb, hist)
+	}
+	if offered && credOK && r.regCand != identity+"/home" {
+		x.Failf("C03:builders:register-candidate", "Register was offered %q, the client was built as %q %s", r.regCand, identity+"/home", hist)
+	}
+	if want && r.estErr == nil {
+		if r.estRemote != r.regRet {
+			x.Failf("C03:builders:established-node", "the established session's remote node is %q, Register returned %q %s", r.estRemote, r.regRet, hist)
+		}
+		if r.sendErr != nil || r.handled != 1 {
+			x.Failf("C03:builders:session-unusable", "message on the fresh session: send error %v, handled %d times %s", r.sendErr, r.handled, hist)
+		} else if r.handlerRemote != r.regRet || r.handlerLocal != "postmaster@srv.test/s1" {
+			x.Failf("C03:builders:handler-context", "handler saw remote %q local %q, expected %q and postmaster@srv.test/s1 %s", r.handlerRemote, r.handlerLocal, r.regRet, hist)
+		}
+	}
+}
+
 // pairBody runs the real client channel against the real server channel over a virtual
 // connection for every configuration x client selector x client TLS capability; a tap on
 // both directions classifies every chunk as cleartext JSON or TLS record.
@@ -1667,6 +1874,9 @@ func Main(prop string) {
 		add("server-ws/guest+plain/d3", "server-ws", sel("guest/none", "plain/none+tls"), 3, false, 0, -1)
 		add("server-ws/all/d4", "server-ws", all, 4, false, -1, 0)
 	default: // C03, C07
+		if prop == "C03" {
+			scs = append(scs, harness.Scenario{Name: "builders/handshake", Opt: opt, Quick: 0, Thorough: 0, Body: builderPairBody, Final: builderPairFinal})
+		}
 		add("server/all/d4", "server", all, 4, false, 0, -1)
 		add("channel/all/d4", "channel", all, 4, false, 0, -1)
 		add("server/all/d6", "server", all, 6, true, -1, 0)
